@@ -482,7 +482,8 @@ M.ASSUMPTIONS["D-SET"] = ("python set: set(x) holds the elements of x; a.interse
                           "keys of b; len is their number; pop() returns one of them")
 M.ASSUMPTIONS["D-FS"] = ("pyfilesystem2: isfile(p) iff p (normalised) is a file of the file system, at any depth; "
                          "filterdir('/', files=patterns, exclude_dirs=['*']) yields each root-level file whose name matches a "
-                         "pattern exactly once; fs.path.splitext(x + '.' + e) = (x, '.' + e) when e contains neither '.' nor '/'")
+                         "pattern exactly once -- and possibly root-level files matching a pattern only up to letter case (fs 2.x "
+                         "matches case-insensitively on OS directories); fs.path.splitext(x + '.' + e) = (x, '.' + e) when e contains neither '.' nor '/'")
 M.ASSUMPTIONS["D-IO"] = ("Bio.SeqIO.read(handle, 'genbank') returns the record stored in the file or raises ValueError")
 
 _orig_wrap = _wrap_dict_method
@@ -730,12 +731,18 @@ def listing_facts(F, exts):
     n = tm.seqlen(F)
     has_ext = lambda nm: tm.or_(*[tm.and_(tm.eq(tm.app("path_ext", STR, nm), tm.S("." + e)),
                                            tm.eq(nm, tm.concat(tm.app("path_stem", STR, nm), "." + e))) for e in exts])
+    # what filterdir LISTS: pyfilesystem2 matches the patterns without regard to letter case on file systems it takes for
+    # case-insensitive (fs 2.x takes every OS directory for one): the extension of a listed file is one of the requested
+    # ones *up to case*.  What it is sure to list: every root-level file with exactly a requested extension.
+    has_ext_ci = lambda nm: tm.or_(*[tm.and_(tm.eq(tm.lower(tm.app("path_ext", STR, nm)), tm.S("." + e)),
+                                              tm.prefixof(".", tm.app("path_ext", STR, nm)), tm.eq(tm.slen(tm.app("path_ext", STR, nm)), len(e) + 1),
+                                              tm.eq(nm, tm.concat(tm.app("path_stem", STR, nm), tm.app("path_ext", STR, nm)))) for e in exts])
     return [
         # each file once: entries are pairwise distinct files, i.e. have pairwise distinct names
         tm.forall([i, j], tm.implies(tm.and_(tm.le(0, i), tm.lt(i, j), tm.lt(j, n)),
                                      tm.ne(fname(tm.seqnth(F, i)), fname(tm.seqnth(F, j))))),
         # every entry is a root-level file whose name is <stem>.<ext> for a listed extension
-        tm.forall_range(i, 0, n, tm.and_(has_ext(fname(tm.seqnth(F, i))), tm.app("fs_isfile", BOOL, fname(tm.seqnth(F, i))),
+        tm.forall_range(i, 0, n, tm.and_(has_ext_ci(fname(tm.seqnth(F, i))), tm.app("fs_isfile", BOOL, fname(tm.seqnth(F, i))),
                                          tm.not_(tm.contains(fname(tm.seqnth(F, i)), "/")))),
         # ... and every such file is listed (fs_index: where)
         tm.forall([nm_], tm.implies(tm.and_(tm.app("fs_isfile", BOOL, nm_), tm.not_(tm.contains(nm_, "/")), has_ext(nm_)),
